@@ -99,6 +99,23 @@ def run_case(case):
             i, j = np.unravel_index(np.argmax(e1), e1.shape)
             vs.append(viol(pre + f"|{name}|values", f"{name} entries are not the position/rotation quantities with f^{power} "
                            f"on one family; e.g. ({i},{j})", case, expected=float(cand1[i, j]), observed=float(M[i, j])))
+    # other public routes to the same quantities: prefactors S/(h V_i) and the position-only / rotation-only adjacency
+    try:
+        Pm = fg.get_full_prefactors().toarray().astype(float)
+        with np.errstate(divide="ignore", invalid="ignore"):
+            XP = np.where(A, B / np.where(D != 0, D, 1.0) / np.where(V > 0, V, 1.0)[:, None], 0.0)
+        if not open_cells and not close(Pm, XP):
+            i, j = np.unravel_index(np.argmax(np.abs(Pm - XP)), Pm.shape)
+            vs.append(viol(pre + "|prefactors", f"get_full_prefactors entry ({i},{j}) is not border/(distance*volume_i)", case,
+                           expected=float(XP[i, j]), observed=float(Pm[i, j])))
+        if n_p > 1:
+            a_rot = np.asarray(fg.get_full_adjacency(only_position=True).toarray()) != 0      # same position, adjacent rotations
+            a_pos = np.asarray(fg.get_full_adjacency(only_orientation=True).toarray()) != 0   # same rotation, adjacent positions
+            if not (np.array_equal(a_rot, np.kron(Ip, rA) > 0) and np.array_equal(a_pos, np.kron(pA, Ib) > 0)):
+                vs.append(viol(pre + "|partial_adjacency", "position-only / rotation-only adjacency matrices are not the two "
+                               "families of the full adjacency", case))
+    except Exception as e:
+        vs.append(viol(pre + "|other_routes_raise", f"{type(e).__name__}: {str(e)[:100]}", case))
     XV = np.kron(pV, rV) * f ** 3
     if not close(V, XV):
         i = int(np.argmax(np.abs(V - XV)))
